@@ -41,7 +41,7 @@ register("C16", "exploration",
 register("C01", "exploration",
          "Bounded: solve()/cnf() contract (False iff no consistent valuation agrees with A; result total, Boolean, consistent, agrees with A; cnf models projected on nodes == consistent valuations) checked on the real functions against an independent simulator.",
          "oracle = vlib.oracle (exhaustive enumeration over free signals + feedback vertex set); pysat shim trusted",
-         explanation="bounded stand-in of the cnf/solve contract")
+         proof=True, explanation="bounded stand-in of the cnf/solve contract")
 
 register("C05", "exploration",
          "Bounded: contracts of limit_fanin/limit_fanout (same io, bound respected, every original node keeps its function - decided relationally R1+R2 by enumeration -, result lint-clean), insert_registers (flops made transparent == original) and acyclic_unroll on acyclic circuits, on the real functions.",
